@@ -249,6 +249,7 @@ class Report:
         self.explanation = ''
         self.extra_samples = []
         self.side = {}          # side results (crosshair, cvc5, selftests)
+        self.concrete = []      # violations observed in concrete runs of the repository's own scenarios (reference validation)
 
     def add_jobs(self, results):
         self.jobs.extend(results)
@@ -330,6 +331,14 @@ class Report:
                            'replay_detail': v['replay_detail'], 'job': r['id']}, f, indent=1, default=str)
             lines.append(f"VIOLATION property={prop} replay={path}")
             lines.append(f"  rule={v['rule']} job={r['id']} {v['msg']}")
+        for cv in self.concrete:
+            n_viol += 1
+            h = hashlib.sha1(json.dumps(cv, sort_keys=True, default=str).encode()).hexdigest()[:10]
+            path = os.path.join(REPLAY_DIR, f"{prop}-{h}.json")
+            with open(path, 'w') as f:
+                json.dump(dict(cv, property=prop, concrete='vk.validate'), f, indent=1, default=str)
+            lines.append(f"VIOLATION property={prop} replay={path}")
+            lines.append(f"  rule={cv['rule']} scenario={cv['scenario']} cache={cv['cache']} (concrete run of the repository's own scenario test under the reference monitors) {cv['msg']}")
         wall = time.perf_counter() - self.t0
         cov = {
             'explanation': self.explanation or 'bounded symbolic execution of the real code, every branch and obligation decided by z3',
